@@ -154,3 +154,15 @@ Fixpoint run_gops_cached (sh : N -> list name -> list name) (g : graph) (cache :
       | None => let c := rev_graph sh g in c :: run_gops_cached sh g (Some c) r
       end
   end.
+
+(** * A search queue shared between calls (round 3, seeded change C19-j)
+
+    [minCircle]'s queue is a local of the call.  If its backing store were a
+    package-level variable, a second search (another goroutine, its own
+    graph) that resets the store to length 0 and appends its own start nodes
+    while the first is between two dequeues makes the first search read the
+    second one's entries: [shared_store_after qa qb] is what the first search
+    finds in the store it believes to be its queue [qa]. *)
+Definition shared_store_after (qa qb : list name) : list name := qb ++ skipn (length qb) qa.
+Definition dequeue_shared (qa qb : list name) (pt : nat) : option name :=
+  nth_error (shared_store_after qa qb) pt.
